@@ -14,4 +14,5 @@ import Rtcp.Props.Total
 import Rtcp.Props.Layout
 import Rtcp.Props.Setters
 import Rtcp.Props.EndToEnd
+import Rtcp.Props.Fast
 import Rtcp.Props.Pins
